@@ -118,12 +118,37 @@ def oracle_registries(ctx, case, jcase, rng):
     if not applied:
         return
     real.clear_global_state()
+    how = rng.choice(['add', 'add', 'extend'])
+    rs0, ss0 = rs, ss
+    if rng.random() < 0.4:
+        # the definitions in shorthand form: what the registry holds after registration is what it must keep holding
+        rs = {k: (rewrite.to_shorthand(rng, {0: d}, p=0.6)[0][0] if isinstance(d, dict) else d) for k, d in rs.items()}
+        ss = {k: (rewrite.to_shorthand(rng, d, p=0.6)[0] if isinstance(d, dict) else d) for k, d in ss.items()}
+        how += ', shorthand definitions'
+    canon_rs, canon_ss = rs0, ss0
+    swap = how == 'extend, shorthand definitions' and rng.random() < 0.5
+    if swap:
+        how += ' swapped in after the validator was built'
     try:
-        for k, v in rs.items():
-            rules_set_registry.add(k, copy.deepcopy(v))
-        for k, v in ss.items():
-            schema_registry.add(k, copy.deepcopy(v))
-        v = real.cls_of(case)(copy.deepcopy(refschema), **copy.deepcopy(case.get('cfg', {})))
+        if how.startswith('add') or swap:
+            for k, v in (canon_rs if swap else rs).items():
+                rules_set_registry.add(k, copy.deepcopy(v))
+            for k, v in (canon_ss if swap else ss).items():
+                schema_registry.add(k, copy.deepcopy(v))
+        else:
+            rules_set_registry.extend(copy.deepcopy(rs))
+            schema_registry.extend(copy.deepcopy(ss))
+        try:
+            v = real.cls_of(case)(copy.deepcopy(refschema), **copy.deepcopy(case.get('cfg', {})))
+        except Exception as e:
+            ctx.dist('skipped', 'referenced schema not constructed: ' + type(e).__name__)
+            return
+        if swap:
+            # references are resolved lazily: the definitions behind the names are replaced (by equivalent ones in
+            # shorthand form) after the validator was built
+            rules_set_registry.extend(copy.deepcopy(rs))
+            schema_registry.extend(copy.deepcopy(ss))
+        ctx.dist('registries_filled_by', how)
         held = snapshot(dict(v.schema))
         before = registry_snapshot()
         for call in ('validate', 'validated', 'normalized'):
